@@ -313,6 +313,19 @@ static ___mutex_t iv_fd_epoll_active_fd_mutex = PTHREAD_MUTEX_INITIALIZER;
 static int iv_active_fd_refcount;
 static int iv_active_fd;
 
+static void iv_fd_epoll_put_active_fd(void)
+{
+	___mutex_lock(&iv_fd_epoll_active_fd_mutex);
+	if (!--iv_active_fd_refcount) {
+		close(iv_active_fd);
+		if (iv_active_fd_pipe_wr != -1) {
+			close(iv_active_fd_pipe_wr);
+			iv_active_fd_pipe_wr = -1;
+		}
+	}
+	___mutex_unlock(&iv_fd_epoll_active_fd_mutex);
+}
+
 static int iv_fd_epoll_event_rx_on(struct iv_state *st)
 {
 	struct epoll_event event;
@@ -332,6 +345,8 @@ static int iv_fd_epoll_event_rx_on(struct iv_state *st)
 
 	if (ret == 0)
 		st->numobjs++;
+	else
+		iv_fd_epoll_put_active_fd();
 
 	return ret;
 }
@@ -353,15 +368,7 @@ static void iv_fd_epoll_event_rx_off(struct iv_state *st)
 			 "error %d[%s]", errno, strerror(errno));
 	}
 
-	___mutex_lock(&iv_fd_epoll_active_fd_mutex);
-	if (!--iv_active_fd_refcount) {
-		close(iv_active_fd);
-		if (iv_active_fd_pipe_wr != -1) {
-			close(iv_active_fd_pipe_wr);
-			iv_active_fd_pipe_wr = -1;
-		}
-	}
-	___mutex_unlock(&iv_fd_epoll_active_fd_mutex);
+	iv_fd_epoll_put_active_fd();
 
 	st->numobjs--;
 }
